@@ -35,14 +35,23 @@ RULE = ("metamorphic cases = (namespace, task invocation built by construction, 
         "flags whose short name shadows a BOOLEAN core short flag (-d, -e, -p), for an unshadowed task flag and for core value "
         "flags, in the '=', glued and spaced spellings (every owner x value x spelling at least once), the owner's task first / "
         "second / third, the item followed by a task name / a flag of the task / a core flag / the end, core flags before the "
-        "tasks or not: value verbatim, every task receives exactly its expected arguments, core values as without the item")
+        "tasks or not: value verbatim, every task receives exactly its expected arguments, core values as without the item. "
+        "Family COREKIND: a Program SUBCLASS whose core_args() adds core options of the other kinds - list (repeatable), int, "
+        "optional value, incrementable - each option group (one or more occurrences, '=', spaced, glued, inside combined short "
+        "blocks, mixed with stock flags) before the first task and at every item boundary of every task (optional-value flags "
+        "only where the task's positionals are filled): the core context must hold exactly the TYPED values the group denotes, "
+        "every other core value, the tasks' arguments, the configuration they see and the remainder as without the group; plus "
+        "groups split between 'before the tasks' and 'inside a task'. Two divergences of the unchanged implementation on this "
+        "dimension (incrementable option before the tasks reset; split repeatable option keeps the inside part only) are "
+        "counted in the histogram, demanded by replay, and listed in known_findings.d/C18.json")
 TRUSTED = ["Lean 4.33 kernel", "axioms propext/Classical.choice/Quot.sound only",
            "harness/props/c18.py metamorphic generator + oracle + canonicalisation", "tools/extractors/parser.py (core argument table)",
            "models Invoke/Model/Parser.lean + Program.lean hand-written, tied by correspondence on every run",
            "Config defaults/merging and Executor (exercised, not modelled here)"]
 ASSUMPTIONS = ["the task where the option is placed is not waiting for a flag value at that point (item boundary) - the property's "
                "own side condition", "optional-value core options (--help, --list) are outside the placement oracle (documented ambiguity)",
-               "a task flag with the same spelling but a different arity than the core option is a don't-care of the shadowing oracle"]
+               "a task flag with the same spelling but a different arity than the core option is a don't-care of the shadowing oracle",
+               "a plain value flag given twice in one context ('-L 3 -L 4') is refused by the parser wherever it stands - not a placement question"]
 LEVEL_TEXT = ("Lean 4 proofs about the two-pass Program parse: remainder_verbatim (remainder = ' '.join of the tokens after the first "
               "'--', and nothing else depends on them), unparsed_is_suffix (once the core pass meets a non-core token, every later "
               "token reaches task parsing verbatim and in order), core_flag_in_task_partial / shadowing_flag_wins_partial (one-step "
@@ -105,6 +114,27 @@ def mk_rec_task(td):
 _NS_CACHE = {}
 
 
+def extra_core_args(ns):
+    """the additional core options of a Program SUBCLASS (fabric-style `core_args()` override), fresh Argument objects"""
+    from invoke import Argument
+    kinds = {"str": str, "int": int, "bool": bool, "list": list}
+    return [Argument(names=tuple(a["names"]), kind=kinds[a.get("kind", "str")], default=a.get("default"),
+                     optional=a.get("optional", False), incrementable=a.get("incrementable", False))
+            for a in ns.get("core_extra", [])]
+
+
+def program_class(ns, base=None):
+    from invoke import Program
+    base = base or Program
+    if not ns.get("core_extra"):
+        return base
+
+    class Sub(base):
+        def core_args(self):
+            return super().core_args() + extra_core_args(ns)
+    return Sub
+
+
 def namespace(ns):
     from invoke import Collection
     key = common.h(ns)
@@ -141,7 +171,7 @@ def run_program(ns, argv):
             stage["tasks"] = None
 
     del SINK[:]
-    p = Rec(namespace=namespace(ns))
+    p = program_class(ns, Rec)(namespace=namespace(ns))
     exc = None
     dwb = sys.dont_write_bytecode
     out, err = io.StringIO(), io.StringIO()
@@ -218,7 +248,7 @@ class NsView:
         self.ns = ns
         coll = namespace(ns)
         self.ctxs = coll.to_contexts()
-        self.initial = Program(namespace=coll).initial_context
+        self.initial = program_class(ns)(namespace=coll).initial_context
         self.view = c07.View(self.initial, self.ctxs, False)
         self.header = "G %s %s " % (enc_ctx(self.initial), enc_registry(self.ctxs))
         self.core_opts = []  # (name, arg view, [spellings])
@@ -816,6 +846,132 @@ def oracle_shape(nv, case, runs):
     return None
 
 
+# ------------------------------------------------------------------ family: core options of the other kinds (Program subclasses)
+
+KIND_NS = {"id": "K1", "tasks": [
+    {"name": "build", "params": [["name", "x"], ["flag", False]]},
+    {"name": "ship", "params": [["pos"], ["verbose", False]]}],
+    "core_extra": [{"names": ["tag", "t"], "kind": "list"}, {"names": ["level", "L"], "kind": "int", "default": 1},
+                   {"names": ["maybe", "m"], "optional": True},
+                   {"names": ["loud", "u"], "kind": "int", "default": 0, "incrementable": True}]}
+KIND_DEFAULTS = {"tag": [], "level": 1, "maybe": None, "loud": 0}
+# (option group = all occurrences of the options, complete: no value left open; typed values the core context must hold)
+KIND_GROUPS = [
+    (["--tag", "a"], {"tag": ["a"]}), (["-t", "a"], {"tag": ["a"]}), (["--tag=a"], {"tag": ["a"]}), (["-ta"], {"tag": ["a"]}),
+    (["-t=a"], {"tag": ["a"]}), (["--tag", "a", "-t", "b"], {"tag": ["a", "b"]}), (["-t", "a", "-e", "-t", "b"], {"tag": ["a", "b"], "echo": True}),
+    (["--tag=a", "--tag=b", "-tc"], {"tag": ["a", "b", "c"]}), (["--tag", "5"], {"tag": ["5"]}),
+    (["--level", "3"], {"level": 3}), (["-L", "3"], {"level": 3}), (["--level=3"], {"level": 3}), (["-L3"], {"level": 3}),
+    (["-L=3"], {"level": 3}), (["-L", "0"], {"level": 0}),
+    (["--maybe=v"], {"maybe": "v"}), (["-m=v"], {"maybe": "v"}), (["-mv"], {"maybe": "v"}), (["-m", "-e"], {"maybe": True, "echo": True}),
+    (["--maybe", "--pty"], {"maybe": True, "pty": True}),
+    (["-u"], {"loud": 1}), (["-uu"], {"loud": 2}), (["--loud"], {"loud": 1}), (["-u", "-u", "--loud"], {"loud": 3}),
+    (["-ue"], {"loud": 1, "echo": True}), (["-eu"], {"loud": 1, "echo": True}), (["-ut", "a"], {"loud": 1, "tag": ["a"]}),
+    (["-uL", "3"], {"loud": 1, "level": 3}), (["-t", "a", "-L", "2", "-u", "--maybe=v"], {"tag": ["a"], "level": 2, "loud": 1, "maybe": "v"}),
+]
+# the same option given BOTH before the first task and inside a task's argument list: (front part, inside part, combined values,
+# values of the inside part alone)
+KIND_SPLITS = [
+    (["--tag", "a"], ["--tag", "b"], {"tag": ["a", "b"]}, {"tag": ["b"]}), (["-t", "a", "-t", "b"], ["-tc"], {"tag": ["a", "b", "c"]}, {"tag": ["c"]}),
+    (["-u"], ["-u"], {"loud": 2}, {"loud": 1}), (["-uu"], ["--loud"], {"loud": 3}, {"loud": 1}),
+    (["-L", "3"], ["-L", "4"], {"level": 4}, {"level": 4}), (["--maybe=v"], ["--maybe=w"], {"maybe": "w"}, {"maybe": "w"}),
+    (["-e"], ["-e"], {"echo": True}, {"echo": True}),
+]
+# Divergences of the UNCHANGED implementation on this dimension (witnesses reported; printed as histogram lines, demanded by
+# `replay` and - once listed as known findings - by the run as well):
+#   gap-1  an INCREMENTABLE core option given before the first task is reset: incrementable arguments are born with
+#          `_value = default`, so the never-given copy of the task pass always counts as `got_value` and `_update_core_context`
+#          overwrites the core pass's count (`-uu build` -> 0, `build -uu` -> 2)
+#   gap-2  a list / incrementable core option given both before and inside the tasks keeps only the inside occurrences
+#          (`--tag a build --tag b` -> ['b'], `--tag a --tag b build` -> ['a', 'b'])
+DEMAND_KNOWN_GAPS = True
+
+
+def corekind_cases(nv, rng, n_calls):
+    cases = []
+    tasks = nv.view.tasks
+    for toks, expect in KIND_GROUPS:
+        for _ in range(n_calls):
+            calls = [build_call(rng.choice(tasks), rng) for _ in range(rng.choice([1, 2]))]
+            rem = rng.choice(REMAINDERS) if rng.random() < 0.25 else None
+            cases.append({"kind": "corekind", "ns": nv.ns, "toks": toks, "front": [], "expect": expect, "calls": calls, "rem": rem})
+    for front, inside, expect, alone in KIND_SPLITS:
+        calls = [build_call(rng.choice(tasks), rng) for _ in range(rng.choice([1, 2]))]
+        cases.append({"kind": "corekind", "ns": nv.ns, "toks": inside, "front": front, "expect": expect, "alone": alone,
+                      "calls": calls, "rem": None})
+    return cases
+
+
+def corekind_argvs(nv, case):
+    """-> [(placement label, argv)]: the group before the first task, and at every item boundary of every task (a bare
+    optional-value flag, with or without a value, only where every positional of the task is filled - the documented
+    ambiguity rule: before that, `check_ambiguity` refuses its value)"""
+    calls, toks, front = case["calls"], case["toks"], case["front"]
+    tail = (["--"] + case["rem"]) if case["rem"] is not None else []
+    bare_opt = any(t.startswith("-m") or t.startswith("--maybe") for t in toks)
+    # (a split group has no "everything before the first task" placement of its own: that is the group given together)
+    out = [("front", toks + flat(calls) + tail)] if not front else []
+    for k, ck in enumerate(calls):
+        task = nv.view.names[ck["task"]]
+        npos = sum(1 for a in task["args"] if c07.View.must_fill(a))
+        for j in range(len(ck["items"]) + 1):
+            if bare_opt and j < npos:
+                continue
+            body = flat(calls[:k]) + [ck["task"]] + sum(ck["items"][:j], []) + toks + sum(ck["items"][j:], []) + flat(calls[k + 1:])
+            out.append(("call%d:%d" % (k, j), front + body + tail))
+    return out
+
+
+def oracle_corekind(nv, case, runs):
+    """-> [(why, gap tag | None, label, argv)] for every placement that does not give the core context exactly the typed
+    values the option group denotes (and the tasks exactly what they get without it)"""
+    def run(argv):
+        key = json.dumps(argv)
+        if key not in runs:
+            runs[key] = run_program(case["ns"], argv)
+        return runs[key]
+    tail = (["--"] + case["rem"]) if case["rem"] is not None else []
+    plain = run(flat(case["calls"]) + tail)
+    if plain["exc"] is not None or plain["stage"].get("tasks", "unset") is not None or not plain["calls"]:
+        return [("the task invocations %r alone are refused" % (flat(case["calls"]),), None, "plain", flat(case["calls"]))]
+    incr = set(a["names"][0] for a in case["ns"]["core_extra"] if a.get("incrementable"))
+    lists = set(a["names"][0] for a in case["ns"]["core_extra"] if a.get("kind") == "list")
+    defaults = dict((a["names"][0], [] if a.get("kind") == "list" else a.get("default")) for a in case["ns"]["core_extra"])
+    bad = []
+    placements = corekind_argvs(nv, case)
+    snaps = None
+    for label, argv in placements:
+        r = run(argv)
+        what = "core option group %r %s in %r" % (case["front"] + case["toks"], "before the first task" if label == "front" and not case["front"]
+                                                  else "split %r | %r" % (case["front"], case["toks"]) if case["front"] and label != "front" else label, argv)
+        if r["exc"] is not None or r["stage"].get("tasks", "unset") is not None or r["stage"].get("core", "unset") is not None:
+            bad.append(("%s was refused (%s, stage %r)" % (what, r["exc"], r["stage"]), None, label, argv))
+            continue
+        if [(c["task"], c["kwargs"]) for c in r["calls"]] != [(c["task"], c["kwargs"]) for c in plain["calls"]] or \
+                r.get("remainder") != plain.get("remainder"):
+            bad.append(("%s: tasks / remainder differ from the command line without it: %r" % (what, _brief(r)), None, label, argv))
+            continue
+        core = r.get("core") or {}
+        want = dict(plain.get("core") or {})
+        want.update(case["expect"])
+        diff = dict((k, (core.get(k), want[k])) for k in want if repr(core.get(k)) != repr(want[k]))
+        these = [c["snap"] for c in r["calls"]]
+        if snaps is None:
+            snaps = these
+        elif these != snaps and not diff:
+            diff = {"<configuration seen by the tasks>": (these, snaps)}
+        if not diff:
+            continue
+        gap = None
+        if not case["front"] and label == "front" and all(k in incr and v[0] == defaults[k] for k, v in diff.items()):
+            gap = "gap-1:incrementable-before-tasks-reset"
+        elif case["front"] and label != "front" and all(k in (incr | lists) and v[0] == dict(plain["core"], **case["alone"]).get(k)
+                                                          for k, v in diff.items()):
+            gap = "gap-2:split-occurrences-inside-part-only"
+        bad.append(("%s: core values (got, expected) differ: %r - a core option means the same wherever it is written" % (what, diff),
+                    gap, label, argv))
+    return bad
+
+
 # ------------------------------------------------------------------ family: values that look like the sentinel
 
 DASH_NS = {"id": "X2", "tasks": [
@@ -884,7 +1040,12 @@ def oracle_dash(nv, case, runs):
 
 
 def match_known(entry, failure):
-    return False
+    """known findings on the dimension "core options of other kinds": only the exact divergence patterns (see KIND_SPLITS)"""
+    case = failure.get("case", {})
+    if case.get("kind") != "corekind":
+        return False
+    gap = case.get("gap") or ""
+    return bool(gap) and entry.get("id", "").endswith(gap.split(":", 1)[1])
 
 
 def replay(case):
@@ -897,6 +1058,11 @@ def replay(case):
     if case.get("kind") == "dashval":
         why = oracle_dash(NsView(case["ns"]), case, {})
         return why is None, why or "ok"
+    if case.get("kind") == "corekind":
+        bad = oracle_corekind(NsView(case["ns"]), case, {})
+        only = case.get("placement")
+        bad = [b for b in bad if only is None or b[2] == only]
+        return not bad, (bad[0][0] if bad else "ok")
     if case.get("kind") == "shape":
         why = oracle_shape(NsView(case["ns"]), case, {})
         return why is None, why or "ok"
@@ -1049,6 +1215,20 @@ def run(ctx):
             if why:
                 out.fail(case, why)
         compare_with_model(nv, runs, ctx, out, drv, baseline)
+    # core options of the other kinds (list, int, optional value, incrementable) added by a Program subclass
+    nv = NsView(KIND_NS)
+    runs = {}
+    for case in corekind_cases(nv, rng, ctx.n(2, 12)):
+        bad = oracle_corekind(nv, case, runs)
+        out.case(case, True)
+        out.hist["corekind:%s" % ("split" if case["front"] else "together")] += 1
+        for why, gap, label, argv in bad:
+            if gap and not DEMAND_KNOWN_GAPS:
+                out.hist["corekind:%s (unchanged implementation diverges: witness reported, demanded by replay)" % gap] += 1
+                continue
+            out.fail(dict(case, placement=label, gap=gap), why)
+    base = run_program(KIND_NS, ["build"])
+    compare_with_model(nv, runs, ctx, out, drv, base["calls"][0]["snap"] if base["calls"] else dict((k, None) for k in SNAP_KEYS))
     # listing options: same effect wherever they are written
     fmts = [["-F", "nested"], ["--list-format=json"], ["-F=flat"], ["--list-format", "nested"], []]
     depths = [["-D", "1"], ["--list-depth=2"], ["-D1"], []]
